@@ -2167,8 +2167,17 @@ def _raw_test_is_guarded(repo: Repo, f: FuncInfo, test: ast.expr, hay_e: ast.exp
                 return "the value this raw prefix test is part of is only true when the next character is the separator or absent"
             if value_stmt or not isinstance(parent(top), ast.comprehension):
                 # the value of the raw test escapes (returned, stored, collected): consequences cannot be followed here
-                if not (isinstance(st, (ast.Assign, ast.AnnAssign)) and isinstance(getattr(st, "targets", [None])[0] if isinstance(st, ast.Assign) else st.target, ast.Name)):
+                tgt = (st.targets[0] if isinstance(st, ast.Assign) and len(st.targets) == 1 else getattr(st, "target", None)) if isinstance(st, (ast.Assign, ast.AnnAssign)) else None
+                if not isinstance(tgt, ast.Name) or isinstance(f.node, ast.Lambda):
                     return None
+                # a flag: it must be used for branching only (a returned / stored / passed flag carries the raw decision away)
+                for x in own_nodes(f.node):
+                    if isinstance(x, ast.Name) and x.id == tgt.id and isinstance(x.ctx, ast.Load):
+                        p_ = parent(x)
+                        while isinstance(p_, (ast.BoolOp, ast.UnaryOp)):
+                            x, p_ = p_, parent(p_)
+                        if not (isinstance(p_, (ast.If, ast.While, ast.IfExp, ast.comprehension, ast.Assert)) and (getattr(p_, "test", None) is x or (isinstance(p_, ast.comprehension) and x in p_.ifs))):
+                            return None
         # (c) consequences
         effects: list[ast.AST] = []
         if not isinstance(f.node, ast.Lambda):
